@@ -7,6 +7,8 @@
 -/
 import ProphyModel.Properties.Tables
 import ProphyModel.Lemmas.Scalars
+import ProphyModel.Lemmas.PyDecodeTotal
+import ProphyModel.Lemmas.PyDecodeTyped
 namespace Prophy.C06
 open Prophy
 
@@ -21,5 +23,44 @@ theorem C06_scalar_total (e : Endian) (p : Prim) (data : Bytes) (pos : Nat) :
 theorem C06_counter_guard (e : Endian) (p : Prim) (shift : Nat) (data : Bytes) (pos : Nat) (c sz : Nat)
     (h : Py.decSizer e p shift data pos = .ok (c, sz)) : c ≤ Py.arrayGuard :=
   Py.decSizer_le_guard e p shift data pos c sz h
+
+
+/-- FULL STATEMENT, first clause: for every schema prophyc accepts and the runtime imports, and
+    EVERY byte string, decode returns or raises ProphyError - never struct.error, TypeError or any
+    other class, and the `while` loop of greedy composite arrays always ends -/
+theorem C06_py_decode_total (t : Ty) (data : Bytes) (e : Endian)
+    (hf : Accept.front t = true) (hp : Accept.pyRt t = true) :
+    (∃ r, Py.decode t data e = .ok r) ∨ Py.decode t data e = .error .prophy :=
+  Py.decode_total t data e hf hp
+
+/-- element counts are bounded: in whatever decode returns, every array or bytes field bound to
+    a counter, at any depth, has at most 65536 elements (no schema hypothesis needed) -/
+theorem C06_py_counts_bounded (t : Ty) (data : Bytes) (e : Endian) (v : Val) (n : Nat)
+    (h : Py.decode t data e = .ok (v, n)) : Py.countsOk t v = true :=
+  Py.decode_count_bounded t data e v n h
+
+/-- both schema hypotheses matter: a greedy array of an empty struct (rejected by prophyc, but
+    importable) never ends; an array declared before its sizer gives a TypeError -/
+example : (match Py.decode (.struct "O" [.mk "x" (.struct "E" []) .greedy]) [0] .little with | .error .hang => true | _ => false) = true := by decide
+
+/-- FULL STATEMENT, second clause: whatever decode returns is a well-typed value whose arrays
+    sharing a counter agree in length and respect the counter guard ... -/
+theorem C06_py_decoded_typed (t : Ty) (data : Bytes) (e : Endian) (v : Val) (n : Nat)
+    (hf : Accept.front t = true) (hp : Accept.pyRt t = true)
+    (h : Py.decode t data e = .ok (v, n)) :
+    hasType t v = true ∧ WF.agreeTy t v = true ∧ WF.guardTy t v = true :=
+  Py.decode_typed t data e v n hf hp h
+
+/-- ... hence the decoded message encodes without error, in both byte orders, to the canonical
+    encoding of the decoded value -/
+theorem C06_py_decoded_encodes (t : Ty) (data : Bytes) (e : Endian) (v : Val) (n : Nat)
+    (hf : Accept.front t = true) (hp : Accept.pyRt t = true)
+    (h : Py.decode t data e = .ok (v, n)) :
+    ∀ e', Py.encode t v e' = .ok (Spec.enc t v e') :=
+  Py.decoded_encodes t data e v n hf hp h
+
+/-- the repaired defect D50 (two arrays on one counter, the second a limited bytes field cut at
+    the end of the input: decode returned a message that did not encode): the input is refused now -/
+example : (match Py.decode DecodeTypedCx.T DecodeTypedCx.D_dt .little with | .error .prophy => true | _ => false) = true := by decide
 
 end Prophy.C06
